@@ -51,6 +51,7 @@ class Ctx:
         self.allow_inexact = allow_inexact
         self.inexact = False
         self.novalue = False
+        self.events = set()
 
     def chk_int(self, z):
         if abs(z) >= B62:
@@ -207,6 +208,8 @@ def pe(cx, ctx, t):
             n = n % 2 if n >= 0 else -(2 - (n % 2))
         if n >= 0:
             return cx.chk_int(xi ** n)
+        if xi < 0 and n % 2 == 0:
+            cx.events.add("negpow")      # KF-C04-negpow: the code negates the reciprocal here
         p = xi ** (-n)
         if abs(p) >= B52:
             raise Out()
@@ -451,7 +454,7 @@ def accept(tree, env, allow_inexact=False):
 
 def gen_cases(rng, tier, boost=1):
     cases = []
-    dist = {"adjacent_ops": 0, "random_trees": 0, "equality": 0, "inexact": 0, "single": 0, "novalue": 0}
+    dist = {"adjacent_ops": 0, "random_trees": 0, "equality": 0, "kind_pairs": 0, "inexact": 0, "single": 0, "novalue": 0}
     nov = [0]
 
     def emit(tree, env, cls, extra=0.25, allow_inexact=False):
@@ -475,7 +478,7 @@ def gen_cases(rng, tier, boost=1):
         return True
 
     # 1. every ordered pair of adjacent operators followed by a third operator (shape of D1)
-    reps = (2 if tier == "quick" else 12) * boost
+    reps = (2 if tier == "quick" else 8) * boost
     thirds = ALL if tier != "quick" or boost > 1 else None
     for o1 in ALL:
         for o2 in ALL:
@@ -506,7 +509,7 @@ def gen_cases(rng, tier, boost=1):
                         done += 1
 
     # 2. random trees, depth <= 5
-    n = (2500 if tier == "quick" else 60000) * boost
+    n = (4000 if tier == "quick" else 200000) * boost
     made = 0
     tries = 0
     while made < n and tries < 30 * n:
@@ -515,7 +518,7 @@ def gen_cases(rng, tier, boost=1):
             made += 1
 
     # 3. equality / variable kinds: every kind of variable against every kind of operand
-    n = (700 if tier == "quick" else 12000) * boost
+    n = (1200 if tier == "quick" else 40000) * boost
     made = 0
     tries = 0
     while made < n and tries < 30 * n:
@@ -549,9 +552,61 @@ def gen_cases(rng, tier, boost=1):
             t = ("p", t)
         emit(t, env, "single", extra=0)
 
+    # 6. every operator on every pair of operand kinds, values close to each other
+    #    (type promotion and the comparison boundaries)
+    def kind_leaf(env):
+        k = rng.choice(["nat", "int", "real", "realint", "vn", "vi", "vr", "vns", "vni", "vnr", "vt", "vz", "sub"])
+        small = rng.choice([0, 1, 2, 3])
+        if k == "nat":
+            return ("n", small)
+        if k == "int":
+            return ("i", -rng.choice([1, 2, 3]))
+        if k == "real":
+            s = rng.choice(["0.5", "1.5", "2.5", "-0.5", "-1.5", "0.25"])
+            return ("d", Fraction(s), s)
+        if k == "realint":
+            s = rng.choice(["0.0", "1.0", "2.0", "3.0", "-1.0", "-2.0", "1e0", "2e0", "30e-1"])
+            return ("d", Fraction(s), s)
+        if k == "vn":
+            env["n"] = ("n", small)
+            return ("v", "n")
+        if k == "vi":
+            env["i"] = ("i", -rng.choice([1, 2, 3]))
+            return ("v", "i")
+        if k == "vr":
+            env["r"] = ("r", rng.choice([1, 2, 3, 4, 6, -2, -3, 0]), -1)
+            return ("v", "r")
+        if k == "vns":
+            env["ns"] = ("s", str(small))
+            return ("v", "ns")
+        if k == "vni":
+            env["ni"] = ("s", str(-rng.choice([1, 2, 3])))
+            return ("v", "ni")
+        if k == "vnr":
+            env["nr"] = ("s", rng.choice(["0.5", "1.5", "2.0", "-1.0", "1e0"]))
+            return ("v", "nr")
+        if k == "vt":
+            return ("v", rng.choice(["t", "f"]))
+        if k == "vz":
+            return ("v", "z")
+        return ("o", rng.choice([11, 12, 13]), ("n", small), ("n", rng.choice([0, 1, 2])))
+    n = (1600 if tier == "quick" else 100000) * boost
+    made = 0
+    tries = 0
+    while made < n and tries < 30 * n:
+        tries += 1
+        env = rand_env(rng)
+        for k in ("t", "f", "z"):
+            env[k] = (k,)
+        t = ("o", rng.choice(ALL), kind_leaf(env), kind_leaf(env))
+        if rng.random() < 0.3:
+            t = ("o", rng.choice(ALL), t, kind_leaf(env))
+        if emit(t, env, "kind_pairs", extra=rng.choice([0, 0, 0.3])):
+            made += 1
+
     # 5. real arithmetic with inexact intermediates (+ * / only): model must agree bit for bit,
     #    oracle within 2^-40
-    n = (400 if tier == "quick" else 8000) * boost
+    n = (400 if tier == "quick" else 20000) * boost
     made = 0
     tries = 0
     while made < n and tries < 30 * n:
@@ -599,6 +654,42 @@ def case_text(case):
 def nontrivial(case):
     """non-trivial: at least two operators (so that a precedence decision is taken)"""
     return case.split(" ")[2].count("o") >= 2
+
+
+def parse_env_tok(tok):
+    env = {}
+    if tok == "-":
+        return env
+    for ent in tok.split(";"):
+        f = ent.split(":")
+        k = f[1]
+        if k in ("n", "i"):
+            env[f[0]] = (k, int(f[2]))
+        elif k == "r":
+            m, e = f[2].split("_")
+            env[f[0]] = ("r", int(m), int(e))
+        elif k == "s":
+            env[f[0]] = ("s", "" if f[2] == "-" else "".join(chr(int(x)) for x in f[2].split(".")))
+        else:
+            env[f[0]] = (k,)
+    return env
+
+
+def kf_class(case):
+    """known-finding class of a case (decided on the generated tree, not on the outputs)"""
+    tk = case.split(" ")
+    try:
+        tree = fix_dec(parse_tree_tok(tk[2]))
+        cx = Ctx(parse_env_tok(tk[1]), True)
+        try:
+            pe(cx, 0, tree)
+        except Out:
+            pass
+        if "negpow" in cx.events:
+            return "KF-C04-negpow"
+    except Exception:
+        pass
+    return None
 
 
 # tree <-> token helpers for minimisation
@@ -738,7 +829,16 @@ def check(tier):
 
     found_input = False
     seen = set()
-    for (c, i, m, tag) in res.oracle_fail[:300]:
+    listed = {k.get("id"): k for k in vlib.known_findings(PROP)}
+    unlisted = []
+    for (c, i, m, tag) in res.oracle_fail:
+        kf = kf_class(c)
+        if kf and kf in listed and tag == "same":
+            # recorded genuine defect, reproduced exactly by the pinned model
+            rep.known_finding(kf, "site=%s witness=%r" % (listed[kf].get("site", "?"), case_text(c).strip()))
+        else:
+            unlisted.append((c, i, m, tag))
+    for (c, i, m, tag) in unlisted[:300]:
         if len(seen) >= 5:
             break
         small = minimise(exe, c, True)
@@ -791,6 +891,7 @@ def check(tier):
         "input_distribution": dist,
         "traces_validated_against_impl": len(cases),
         "oracle_failures": len(res.oracle_fail),
+        "oracle_failures_outside_known_findings": len(unlisted),
         "model_impl_mismatches": len(mism),
         "crashes": len(res.crashes),
     }
